@@ -13,7 +13,8 @@ package main
 // Normalisations (DESIGN.md §7):
 //
 //   - "helper under the caller's lock".  An unexported method of NetBIOSNameServer that mentions `.names`,
-//     contains no call on `.mu` at all, is never used as a method value, and is called ONLY from methods that
+//     contains no call on `.mu` at all, is never used as a method value or inside a `go` statement or function
+//     literal, and is called ONLY from methods that
 //     hold the mutex for their whole body (first statement Lock/RLock, second the matching deferred unlock, no
 //     other unlock) or from other such helpers, is not a method of the discipline: its statements run inside
 //     its callers' critical sections.  It is not listed; instead every caller is treated as if the helper's body
@@ -462,6 +463,19 @@ func nbtnsHelpers(decls []nbtnsDecl) map[string]*nbtnsHelper {
 				if uses != 2*calls { // each call contributes its SelectorExpr and its Sel identifier
 					ok = false
 				}
+				// a call in a `go` statement or inside a function literal does not run under the caller's lock
+				ast.Inspect(d.fd.Body, func(x ast.Node) bool {
+					switch y := x.(type) {
+					case *ast.GoStmt, *ast.FuncLit:
+						ast.Inspect(y, func(z ast.Node) bool {
+							if id, isId := z.(*ast.Ident); isId && id.Name == name {
+								ok = false
+							}
+							return true
+						})
+					}
+					return true
+				})
 				if calls > 0 && !holdsLock(d.fd) && cand[d.fd.Name.Name] == nil {
 					ok = false
 				}
